@@ -217,3 +217,45 @@ Proof.
     + intros [r' [e [Hin He]]]. exfalso.
       destruct (Hp (run_query ERange marker r')) as [m Hm]; [apply in_map; exact Hin|]. rewrite He in Hm. discriminate.
 Qed.
+
+(** * The retry loop as a function of the attempts only (outcome) *)
+Fixpoint outcome_loop (ep : endpoint) (i : nat) (last : outcome) (atts : list attempt) : outcome :=
+  match atts with
+  | [] => last
+  | a :: rest => if retry ep a then outcome_loop ep (S i) (outcome_of i a) rest else outcome_of i a
+  end.
+
+Lemma failover_from_outcome_loop ep : forall ups i last,
+  fo_outcome (failover_from ep i last ups) = outcome_loop ep i last (map (att ep) ups).
+Proof.
+  induction ups as [|u rest IH]; intros i last; cbn [failover_from map outcome_loop]; [reflexivity|].
+  destruct (retry ep (att ep u)); cbn [fo_outcome]; [apply IH | reflexivity].
+Qed.
+
+(** A range query over a failover group whose upstreams answer slice by slice ([sls]: per upstream its slice responses
+    and its marker), under ANY schedule: the outcome is the outcome of the ONE-slice loop over a fresh group in which
+    every upstream sends one of its own slices' responses — a failing one whenever one of its slices fails. *)
+Lemma multislice_failover pick : pick_ok pick ->
+  forall sls : list (list response * string),
+  (forall sl, In sl sls -> fst sl <> []) ->
+  exists rs : list (response * string),
+    Forall2 (fun sl p => In (fst p) (fst sl) /\ snd p = snd sl /\
+                         ((exists r' e, In r' (fst sl) /\ run_query ERange (snd sl) r' = AErr e) ->
+                          exists e, run_query ERange (snd sl) (fst p) = AErr e)) sls rs /\
+    forall i last,
+      outcome_loop ERange i last (map (fun sl => slices_attempt pick (snd sl) (fst sl)) sls) =
+      fo_outcome (failover_from ERange i last (fresh_group rs)).
+Proof.
+  intros Hp. induction sls as [|[rs0 m0] sls IH]; intros Hne.
+  - exists []. split; [constructor|]. intros i last. reflexivity.
+  - destruct (slices_collapse pick m0 rs0 Hp) as [r [Hin [Hatt Hfail]]].
+    { apply (Hne (rs0, m0)). left. reflexivity. }
+    destruct IH as [rs [HF Hloop]].
+    { intros sl Hsl. apply Hne. right. exact Hsl. }
+    exists ((r, m0) :: rs). split.
+    + constructor; [|exact HF]. cbn [fst snd]. split; [exact Hin|]. split; [reflexivity|exact Hfail].
+    + intros i last. cbn [map outcome_loop fst snd]. rewrite failover_from_outcome_loop.
+      unfold fresh_group. cbn [map outcome_loop fst snd]. rewrite Hatt.
+      destruct (retry ERange (att ERange (fresh r m0))); [|reflexivity].
+      rewrite Hloop, failover_from_outcome_loop. reflexivity.
+Qed.
